@@ -137,14 +137,14 @@ theorem stepKvs_sim (A : Prop) (one₁ one₂ : Registry → JV → Step)
           | panic => rfl
           | outside => rfl
 
-theorem stepFields_sim (A : Prop) (P : GoType → Prop) (zero : GoType → GoVal)
+theorem stepFields_sim (A : Prop) (P : GoType → Prop) (im : List (Bytes × IdxEntry)) (zero : GoType → GoVal)
     (setv₁ setv₂ : Registry → JV → GoType → IdxEntry → Step)
     (t : GoType) (vm : List (Bytes × JV))
     (hT : ∀ idx ft, typeAt t idx = some ft → P ft)
     (h : ∀ r r₂ m ft e, I r → P ft → I (setv₁ r m ft e).reg ∧ (A → (setv₁ r m ft e).slot = (setv₂ r₂ m ft e).slot)) :
     ∀ (idxs : List (Bytes × IdxEntry)) (r r₂ : Registry) (cur : GoVal), I r →
-      I (stepFields zero setv₁ t vm r idxs cur).reg ∧
-        (A → (stepFields zero setv₁ t vm r idxs cur).slot = (stepFields zero setv₂ t vm r₂ idxs cur).slot) := by
+      I (stepFields im zero setv₁ t vm r idxs cur).reg ∧
+        (A → (stepFields im zero setv₁ t vm r idxs cur).slot = (stepFields im zero setv₂ t vm r₂ idxs cur).slot) := by
   intro idxs
   induction idxs with
   | nil => intro r r₂ cur hr; exact ⟨hr, fun _ => rfl⟩
@@ -152,7 +152,7 @@ theorem stepFields_sim (A : Prop) (P : GoType → Prop) (zero : GoType → GoVal
     intro r r₂ cur hr
     obtain ⟨k, e⟩ := ke
     simp only [stepFields]
-    cases fieldDatum vm k e with
+    cases fieldDatum im vm k e with
     | none => exact ih r r₂ cur hr
     | some m =>
       simp only
@@ -432,7 +432,7 @@ theorem recBody_sim (Q : GoType → Prop) (hQ : Her Q) (ck : Bytes) (cf₁ : Com
                   simp only
                   rw [hc.2]
                   exact stepFields_sim I (noIface (.struct name pkg fs) = true)
-                    (fun ft => Q ft ∧ (noIface (.struct name pkg fs) = true → noIface ft = true)) (zeroVal fuelZ)
+                    (fun ft => Q ft ∧ (noIface (.struct name pkg fs) = true → noIface ft = true)) _ (zeroVal fuelZ)
                     (fun r'' m ft e => rec₁ r'' 2 m ft (some e)) (fun r'' m ft e => rec₂ r'' 2 m ft (some e))
                     (.struct name pkg fs) vm
                     (fun idx ft hta => ⟨typeAt_her hQ idx _ ft hq' hta, fun hn => typeAt_her hN idx _ ft hn hta⟩)
